@@ -19,6 +19,7 @@ def sig_of(clause, op):
 
 def run(ctx):
     ctx.trusted_base += [
+        "Model/WorkerBook.lean (hand-written from hashrate/global_hashrate.go: Initialize = LoadOrStore, OnSubmit, Reset, GetLastSubmitTime) compared op by op with the real GlobalHashrate (harness/hashrate/verif_book_test.go); that ContractWatcherBuyer.run prepares the record with Reset then Initialize, and nothing else in contract_buyer.go writes it, is regenerated (Gen.C10.watcherStartCalls / recordWriters)",
         "tools/gofacts: GetMaxGlobalError, lib.RelativeError/Abs translated to Gen.C10 over Rat (float64 read as exact rationals); skip period, retry delay and the errors.Is->reason chain extracted from the AST",
         "correspondence harness harness/contract/verif_c10_test.go: real GetMaxGlobalError vs Gen (relative 1e-12), real checkIncomingHashrate under virtual time vs Model.Buyer.check on float-safe inputs",
         "buyer-controller harness harness/contract/verif_buyerctl_test.go: the real ControllerBuyer.Run with its real ContractWatcherBuyer over the real HashrateEthereum store; faked: the Ethereum node (harness/vh/chain.go + chaintx.go: takes transactions, refuses the next k, reverts a close of a contract that is not running, mines the rest at once and emits contractClosed) and the incoming shares; monitor Driver/C10ctl.lean judges the transactions the controller sent against Model.Buyer.closeLoop / reasonFor (regenerated reason chain and retry delay) and the property's clauses: nothing sent without a fault, the verdict's reason, one attempt every retry delay until one succeeds, none after a success, no giving up, the loop ends once somebody else has closed the contract",
@@ -56,6 +57,7 @@ def run(ctx):
     L.handle_complaints(ctx, complaints, sig_of)
     ctl_cases = controller_loop(ctx, exe)
     cfg_rows = grace_as_configured(ctx)
+    book_rows = share_record(ctx)
     cases = L.parse_cases("%s/%s" % (ctx.out, TRANSCRIPT))
     verdicts = {}
     nops = 0
@@ -74,7 +76,7 @@ def run(ctx):
         "verdict_distribution": verdicts, "traces_validated_against_impl": len(cases) + len(ctl_cases),
         "controller_histories": len(ctl_cases),
         "controller_rule": "buyer contract of 600 / 900 / 1500 s, share timeout 60 / 120 s, cycle 30 / 60 s: a healthy stretch of shares, then shares stop / the measured rate drops / somebody else closes / nothing; the node refuses 0..5 transactions, or all of them while somebody else closes the contract 5..50 s into the retry loop; 15% end with a shutdown",
-        "grace_period_configurations": cfg_rows,
+        "grace_period_configurations": cfg_rows, "share_record_ops_compared": book_rows,
         "controller_outcomes": {k: sum(1 for h, ls in ctl_cases if any(k in l for l in ls)) for k in ("werr=sharetimeout", "werr=underdelivery", "werr=closed", "werr=ended", "ok=0", "ok=1", "closedevent")},
     })
     ctx.samples += [{"case": h, "lines": lines[:4]} for h, lines in cases[2:5]]
@@ -108,6 +110,27 @@ def grace_as_configured(ctx):
                                 {"clause": "the grace period never causes a close", "case": h, "ops": [op]})
                     return n
     return n
+
+
+def share_record(ctx):
+    """the process-wide per-worker share record (the real GlobalHashrate) against Model/WorkerBook.lean, op by op"""
+    exe = L.build_harness(ctx, "hashrate")
+    if not exe:
+        return 0
+    rc, out = L.run_harness(ctx, exe, "TestVerifBook$", env={"VERIF_N": 300 if ctx.tier == "quick" else 6000}, timeout=600)
+    if rc != 0:
+        ctx.tie_failures.append("share-record harness run failed (rc=%d): %s" % (rc, out[-300:]))
+        return 0
+    impl = ctx.out + "/book.impl.txt"
+    rc, err = L.drv("model", "book", impl, impl + ".model.txt")
+    if rc != 0:
+        ctx.tie_failures.append("driver model book failed: " + err[-200:])
+        return 0
+    for d in L.diff_cases(impl, impl + ".model.txt")[:1]:
+        ctx.tie_failures.append("correspondence broken (share record): after %s the implementation has %r, Model/WorkerBook %r (%s)" % (
+            L.last_op_before(d["lines"], d["first"]), d["impl"], d["other"], d["header"]))
+        ctx.notes.append("share-record replay ops: " + " ; ".join(l[2:] for l in d["lines"][:d["first"]] if l.startswith("> ")))
+    return sum(1 for h, ls in L.parse_cases(impl) for l in ls if l.startswith("> "))
 
 
 CTL_TEST, CTL_TRANSCRIPT = "TestVerifBuyerCtl$", "buyerctl.impl.txt"
